@@ -8,6 +8,7 @@ import (
 	"os"
 	"strconv"
 	"strings"
+	"sync/atomic"
 	"time"
 
 	"github.com/jeroenrinzema/psql-wire/pkg/verifshim/vsched"
@@ -33,6 +34,9 @@ func emit(prefix string, v any) {
 	b, _ := json.Marshal(v)
 	os.Stdout.Write(append(append([]byte(prefix+" "), b...), '\n'))
 }
+
+// freeRunning: the worker has left the scheduled exploration (its watchdog no longer applies).
+var freeRunning atomic.Bool
 
 // WorkerDone mirrors explore's worker summary with schedule statistics.
 type WorkerDone struct {
@@ -60,6 +64,21 @@ func RunWorker(prop, tier string, shard, nshards int, deadline time.Time) int {
 		fmt.Fprintln(os.Stderr, "no scheduled scenarios for", prop)
 		return 2
 	}
+	// watchdog: an execution takes milliseconds; one that does not end within two minutes is stuck on something
+	// the scheduler does not control (a goroutine blocked for real). The worker says so and exits - the driver
+	// records an engine error for this shard, never a verdict.
+	go func() {
+		last, since := execsDone.Load(), time.Now()
+		for {
+			time.Sleep(5 * time.Second)
+			if cur := execsDone.Load(); cur != last {
+				last, since = cur, time.Now()
+			} else if time.Since(since) > 2*time.Minute && !freeRunning.Load() {
+				emit("E", map[string]any{"fatal": "stalled", "error": "an execution did not finish within two minutes (a goroutine blocked outside the scheduler's control?); the worker gave up"})
+				os.Exit(4)
+			}
+		}
+	}()
 	done := WorkerDone{Outcomes: map[string]int{}, Notes: map[string]int{}, Complete: true, PerScen: map[string]int{}, Bounds: map[string]int{}}
 	keys := map[uint64]struct{}{}
 	rl := newRaceLog()
@@ -85,6 +104,20 @@ func RunWorker(prop, tier string, shard, nshards int, deadline time.Time) int {
 					cur.Deadline = time.Now().Add(-time.Second)
 				}
 				rl.drain()
+				return
+			}
+			if vsched.Unsupported != "" {
+				// the code under test runs goroutines the scheduler does not control: nothing of this exploration is a
+				// verdict; report it once as an engine error and give the scenario up
+				rl.drain()
+				if nviol == 0 {
+					emit("E", map[string]any{"scenario": sc.Name, "schedule": choices, "error": "ENGINE-unsupported: " + vsched.Unsupported})
+				}
+				nviol = violationCap
+				done.Complete = false
+				if cur != nil {
+					cur.Deadline = time.Now().Add(-time.Second)
+				}
 				return
 			}
 			if len(v.Violations) > 0 {
@@ -195,6 +228,7 @@ func RunWorker(prop, tier string, shard, nshards int, deadline time.Time) int {
 		if tier == "thorough" {
 			reps = 200
 		}
+		freeRunning.Store(true)
 		for _, sp := range c15Specs() {
 			if sp.dependency || sp.name == "S-H" {
 				continue // these use scheduler-only handlers
